@@ -23,6 +23,18 @@ def jt(d):
     return json.loads(json.dumps(d))
 
 
+def meta_key_order_free(o, in_meta=False):
+    """the same tree with the keys INSIDE metadata dictionaries sorted: the key order of a metadata dictionary is the order the
+    user supplied (not a construction order of the graph), so it is not what "to_dict does not depend on the order in which the
+    graph was built" is about; the order of the node and edge entries is kept and compared"""
+    if isinstance(o, dict):
+        items = sorted(o.items()) if in_meta else list(o.items())
+        return {k: meta_key_order_free(v, in_meta or k == 'meta') for k, v in items}
+    if isinstance(o, list):
+        return [meta_key_order_free(x, in_meta) for x in o]
+    return o
+
+
 def predicate(g, ops, rng):
     """the property evaluated on the implementation alone; returns None or a description"""
     cls = type(g)
@@ -58,7 +70,7 @@ def predicate(g, ops, rng):
     g2.meta = copy.deepcopy(g.meta)
     for op in rebuild_ops(g, rng, flip=False):
         H.apply_op(g2, op)
-    if json.dumps(jt(g2.to_dict())) != json.dumps(jt(g.to_dict())):
+    if json.dumps(meta_key_order_free(jt(g2.to_dict()))) != json.dumps(meta_key_order_free(jt(g.to_dict()))):
         return 'to_dict depends on the order in which the graph was built'
     # skeleton
     sk = g.skeleton
